@@ -157,7 +157,7 @@ NOTES = {
 
 
 def main():
-    names = sys.argv[1:] or sorted(os.path.basename(d) for d in glob.glob(os.path.join(VERIF, "seeded", "C*_[3-9]")))
+    names = sys.argv[1:] or sorted(os.path.basename(d) for d in glob.glob(os.path.join(VERIF, "seeded", "C*_[3-9]")) + glob.glob(os.path.join(VERIF, "seeded", "C*_1[0-9]")))
     for name in names:
         d = os.path.join(VERIF, "seeded", name)
         if not os.path.exists(os.path.join(d, "confirm.json")):
